@@ -637,7 +637,9 @@ class Interp:
             try:
                 m = getattr(v, attr)
             except AttributeError:
-                raise PyRaise("AttributeError", node)
+                pr = PyRaise("AttributeError", node)
+                pr.on_none = v is None
+                raise pr
             return Builtin("%s.%s" % (type(v).__name__, attr), m)
         raise NotEvaluable("attribute %s of %r" % (attr, v))
 
@@ -793,8 +795,9 @@ class Interp:
             raise NotEvaluable("builtin %s" % n)
         if n == "int" and len(args) == 1 and isinstance(args[0], Role):
             return args[0]
-        if n in ("list", "tuple", "set", "sorted", "len", "any", "all", "sum", "min", "max") and args and isinstance(args[0], IterV):
-            args = [self.iterate(args[0], node)] + list(args[1:])
+        if any(isinstance(a, IterV) for a in args):
+            # a generator handed to list()/set.update()/sorted()/... is consumed there
+            args = [self.iterate(a, node) if isinstance(a, IterV) else a for a in args]
         self_obj = getattr(f.fn, "__self__", None)
         if isinstance(self_obj, dict) and n.split(".")[-1] in ("get", "pop", "setdefault", "__contains__", "__getitem__") and args \
                 and (isinstance(args[0], Free) or any(isinstance(k, Free) for k in self_obj)):
@@ -1280,6 +1283,14 @@ class Interp:
         if isinstance(a, (Obj, Region, BufferV)) or isinstance(b, (Obj, Region, BufferV)):
             if isinstance(op, (ast.Eq, ast.NotEq)) and (a is None or b is None):
                 return isinstance(op, ast.NotEq)
+            if isinstance(op, (ast.Eq, ast.NotEq)) and isinstance(a, Obj) and isinstance(b, Obj) \
+                    and not any(o.cls is not None and o.cls.lookup("__eq__") is not None for o in (a, b)):
+                return (a is b) == isinstance(op, ast.Eq)      # objects without __eq__ compare by identity
+            if isinstance(op, (ast.Eq, ast.NotEq)) and isinstance(a, Obj) != isinstance(b, Obj) and not isinstance(a, (Region, BufferV)) \
+                    and not isinstance(b, (Region, BufferV)) and not isinstance(a if not isinstance(a, Obj) else b, Free):
+                o = a if isinstance(a, Obj) else b
+                if o.cls is None or o.cls.lookup("__eq__") is None:
+                    return isinstance(op, ast.NotEq)
             raise NotEvaluable("comparison %s" % ast.unparse(node))
         from .pathkit import _CMP
         try:
@@ -1321,7 +1332,9 @@ class Interp:
         try:
             r = v[k]
         except (KeyError, IndexError, TypeError) as x:
-            raise PyRaise(type(x).__name__, e)
+            pr = PyRaise(type(x).__name__, e)
+            pr.on_none = v is None     # None can only have been produced by the interpreted code itself
+            raise pr
         if isinstance(k, slice) and self.role_of(v) is not None and isinstance(r, (bytes, tuple, list)) and len(r) and not isinstance(v, (tuple, list)):
             pass
         return r
